@@ -485,8 +485,9 @@ func typeOfJSONValue(v any) ExprType {
 		return &ArrayType{Elem: elem}
 	case map[string]any:
 		// Property names are case insensitive. Keys of ObjectType.Props must be in lower case. When
-		// multiple keys are identical in case insensitive, their types are merged. Visit keys in
-		// sorted order since the result of merging types depends on the order.
+		// multiple keys are identical in case insensitive and their types are different, the type falls
+		// back to any since the result of merging types depends on the order. Visit keys in sorted order
+		// to make the result deterministic.
 		keys := make([]string, 0, len(v))
 		for k := range v {
 			keys = append(keys, k)
@@ -496,8 +497,8 @@ func typeOfJSONValue(v any) ExprType {
 		for _, k := range keys {
 			t := typeOfJSONValue(v[k])
 			k = strings.ToLower(k)
-			if p, ok := props[k]; ok {
-				t = p.Merge(t)
+			if p, ok := props[k]; ok && p.String() != t.String() {
+				t = AnyType{}
 			}
 			props[k] = t
 		}
